@@ -43,7 +43,7 @@ func actionLetter(a graphsync.LinkAction) string {
 func SummarizeMsg(f *Fabric, m gsmsg.GraphSyncMessage) string {
 	var parts []string
 	reqs := m.Requests()
-	sort.Slice(reqs, func(i, j int) bool { return reqs[i].ID().String() < reqs[j].ID().String() })
+	sort.Slice(reqs, func(i, j int) bool { return string(reqs[i].ID().Bytes()) < string(reqs[j].ID().Bytes()) })
 	for _, r := range reqs {
 		s := fmt.Sprintf("req{%s %s", shortReq(r.ID()), r.Type())
 		if r.Type() == graphsync.RequestTypeNew {
@@ -55,7 +55,9 @@ func SummarizeMsg(f *Fabric, m gsmsg.GraphSyncMessage) string {
 		parts = append(parts, s+"}")
 	}
 	resps := m.Responses()
-	sort.Slice(resps, func(i, j int) bool { return resps[i].RequestID().String() < resps[j].RequestID().String() })
+	sort.Slice(resps, func(i, j int) bool {
+		return string(resps[i].RequestID().Bytes()) < string(resps[j].RequestID().Bytes())
+	})
 	for _, r := range resps {
 		s := fmt.Sprintf("resp{%s st=%d md=[", shortReq(r.RequestID()), r.Status())
 		for i, e := range ResponseMetadata(r) {
